@@ -3,10 +3,9 @@
   Proved: the GETBULK size bound over the generated expression; on the Python-faithful model, for
   any agent: bulk walks yield nothing outside the roots and nothing twice, independent of the
   listing order; with one repetition per request the bulk walk IS the GETNEXT walk; against a
-  conformant agent that answers with any number of repetitions, shortened anywhere behind the
-  first one, the bulk walk is complete (`C02_bulk_complete`) and returns the instance set of the
-  GETNEXT walk (`C02_bulk_eq_getnext`).  Responses shorter than one repetition (completion
-  requests of the fetcher) are tied by correspondence.
+  conformant agent that answers with any number of repetitions, shortened anywhere (also inside
+  the first repetition: the fetcher's completion requests), the bulk walk is complete
+  (`C02_bulk_complete`) and returns the instance set of the GETNEXT walk (`C02_bulk_eq_getnext`).
 -/
 import Snmp.Gen.Facts
 import Snmp.Model.Walk
@@ -128,9 +127,10 @@ theorem C02_size1_eq_getnext (a : AgentFn) (db : List VarBind) (roots : List Oid
   rw [this]
 
 /-- **Completeness of the bulk walk.**  `x` is any exchange that answers a GETBULK like a conformant
-    agent holding `db`: between one and max-repetitions repetitions, shortened anywhere behind the
-    first repetition (`ConformantBulk` — "however many repetitions the agent chooses to put into
-    each response"; rows made of endOfMibView included).  For every repetition count ≥ 1, pairwise
+    agent holding `db`: between one and max-repetitions repetitions, shortened ANYWHERE as long as
+    one binding is left — also inside the first repetition, RFC 3416 4.2.3 (`ConformantBulk` —
+    "however many repetitions the agent chooses to put into each response"; rows made of
+    endOfMibView included).  For every repetition count ≥ 1, pairwise
     disjoint roots in any order and a loop budget ≥ `|db|`, the bulk walk ends normally, has
     yielded every database entry strictly below a root and yields database entries only. -/
 theorem C02_bulk_complete (x : Exchange) (db : List VarBind) (roots : List Oid) (size fuel : Nat)
@@ -158,12 +158,12 @@ theorem C02_bulk_complete (x : Exchange) (db : List VarBind) (roots : List Oid) 
     rw [yields_eq] at hvb'
     exact h.2.2 vb hvb'
 
-/-- the model's conformant agent under every truncation policy that keeps one repetition is such
-    an exchange (number of repetitions capped, trailing bindings cut, with or without the early stop
-    after an all-endOfMibView repetition) -/
-theorem C02_policies_conformant (db : List VarBind) (pol : BulkPolicy) (hdeep : pol.deep = false) :
+/-- the model's conformant agent under EVERY truncation policy is such an exchange: number of
+    repetitions capped, trailing bindings cut — also into the first repetition —, with or without the
+    early stop after an all-endOfMibView repetition -/
+theorem C02_policies_conformant (db : List VarBind) (pol : BulkPolicy) :
     ConformantBulk (exchangeOf (Agent.conformant db) db pol) db :=
-  exchange_conformantBulk db pol hdeep
+  exchange_conformantBulk db pol
 
 /-- **Bulk walk ≡ GETNEXT walk as sets of instances**, each instance once: same agent, same roots,
     any repetition count, any such truncation policy, strict or lenient GETNEXT walk.  Instances
@@ -171,7 +171,7 @@ theorem C02_policies_conformant (db : List VarBind) (pol : BulkPolicy) (hdeep : 
 theorem C02_bulk_eq_getnext (db : List VarBind) (pol : BulkPolicy) (roots : List Oid) (size fuel : Nat)
     (lenient : Bool) (hsize : 1 ≤ size) (hs : WalkAbs.Sorted (db.map (·.1)))
     (hv : ∀ vb ∈ db, vb.2.isEom = false) (hpf : PrefixFree roots) (hne : roots ≠ [])
-    (hdeep : pol.deep = false) (hfuel : db.length ≤ fuel) :
+    (hfuel : db.length ≤ fuel) :
     let x := exchangeOf (Agent.conformant db) db pol
     let b := walkBulk x size roots fuel
     let g := walkGetnext x roots lenient fuel
@@ -179,7 +179,7 @@ theorem C02_bulk_eq_getnext (db : List VarBind) (pol : BulkPolicy) (roots : List
     (∀ vb : VarBind, vb.1 ∉ roots → (vb ∈ b.yields ↔ vb ∈ g.yields)) ∧
     (yieldOids b.events).Nodup ∧ (yieldOids g.events).Nodup := by
   intro x b g
-  have hb := C02_bulk_complete x db roots size fuel hsize hs hv hpf hne (exchange_conformantBulk db pol hdeep) hfuel
+  have hb := C02_bulk_complete x db roots size fuel hsize hs hv hpf hne (exchange_conformantBulk db pol) hfuel
   have hg := Snmp.Props.C01.C01_complete db pol roots lenient fuel hs hv hpf hfuel
   have hbs := C02_bulk_sound_nodup x size roots fuel
   have hgs := Snmp.Props.C01.C01_sound_nodup (multigetnext x) roots lenient fuel
@@ -203,7 +203,7 @@ theorem C02_bulk_eq_getnext (db : List VarBind) (pol : BulkPolicy) (roots : List
 
 /- the hypotheses are satisfiable: three adjacent subtrees of different sizes, one empty -/
 example : WalkAbs.Sorted ([([1,3,1,1], Val.int 1), ([1,3,1,2], Val.int 2), ([1,3,3,1], Val.null)].map (·.1))
-    ∧ PrefixFree [[1,3,3],[1,3,1],[1,3,2]] ∧ ({ rows := some 2, cut := 1 } : BulkPolicy).deep = false := by
+    ∧ PrefixFree [[1,3,3],[1,3,1],[1,3,2]] ∧ ({ rows := some 1, cut := 2, deep := true } : BulkPolicy).deep = true := by
   refine ⟨by unfold WalkAbs.Sorted; decide, by unfold PrefixFree; decide, rfl⟩
 
 end Snmp.Props.C02
